@@ -14,7 +14,7 @@ PROP = 'C18'
 LEVEL = 'exploration'
 RULE = ('scan designs (1-2 chains of 1-3 flip-flops, node order shuffled against chain order, optional latch) x EVERY placement of "!" markers in the ScanCells list (2^(len+1)) x '
         'signal-group orders (all permutations of _pi and _po for <= 3 free members, rotations above) x cell-name styles x pattern sets (every load string over {0,1} for one pattern, '
-        'N at each position, every unload string over {L,H} plus X at each position, two-pattern sets, launch/capture calls with and without clock pulses); '
+        'N at each position, every unload string over {L,H} plus X at each position, two-pattern sets, three-pattern sets with a don\'t-care pattern first / in the middle, launch/capture calls with and without clock pulses); '
         'distinct_nontrivial = distinct (design, STIL text) pairs whose expected arrays contain both 0 and 1')
 ASSUMPTIONS = ['row order of all returned arrays = circuit.s_nodes (ports, flip-flops, latches)',
                'load/unload character k belongs to the k-th scan cell counted from scan-out; load inversion = parity of markers between scan-in and the cell, unload inversion = parity between the cell and scan-out',
